@@ -23,7 +23,7 @@ PROPS = {
     'C07': _p(['E9']),
     'C08': _p(['E3', 'E4', 'E5', 'EM']),
     'C09': _p(['E2', 'E3', 'E4', 'EM']),
-    'C10': _p(['E4', 'E3', 'EM']),
+    'C10': _p(['E4', 'E9', 'E3', 'EM']),
     'C11': _p(['E3', 'E4', 'EM']),
     'C12': _p(['E6', 'E3', 'E4', 'E5', 'E7', 'EM']),
     'C13': _p(['E9']),
